@@ -122,6 +122,7 @@ type VerifCtx struct {
 	decls           map[*types.Func]*ast.FuncDecl
 	fieldDisc       map[string]fieldDiscipline
 	lockRank        map[string]int
+	wgLocks         map[string]map[string]bool // WaitGroup field -> mutex fields the goroutines it waits for may acquire
 	calledContracts map[string]int
 	lockSlots       map[string]bool
 	disc            func(ex *Exec, st *State, p PtrV, write bool, pc *Term, pos token.Pos)
@@ -325,6 +326,7 @@ func LoadCtx(repo string, pkgDirs []string) (*VerifCtx, error) {
 			c.rootPkgs = append(c.rootPkgs, sp)
 		}
 	}
+	c.indexGoroutineLocks()
 	// index declarations, close() sites
 	for _, p := range c.pkgs {
 		for _, f := range p.Syntax {
@@ -1006,9 +1008,119 @@ func (c *VerifCtx) pointSpecs(ct *Contract) []*PointSpec {
 		info := &types.Info{Types: map[ast.Expr]types.TypeAndValue{}, Uses: map[*ast.Ident]types.Object{}, Defs: map[*ast.Ident]types.Object{},
 			Selections: map[*ast.SelectorExpr]*types.Selection{}, Instances: map[*ast.Ident]types.Instance{}}
 		if err := types.CheckExpr(c.fset, ct.Fn.Pkg.Pkg, ps.Pos, expr, info); err != nil {
-			panic(fmt.Errorf("%s:%d: %v", ps.File, ps.Line, err))
+			// the statement the assertion is anchored to no longer has the
+			// variables it talks about in scope: it cannot be checked there
+			ps.Missing = fmt.Sprintf("the assertion does not type-check at its anchor any more (%v)", err)
+			ps.SrcLine = -1
+			continue
 		}
 		ps.Expr, ps.Info = expr, info
 	}
 	return ct.Points
+}
+
+// indexGoroutineLocks scans every goroutine literal (go func(){...}()) of the
+// analysed packages: the WaitGroup fields it signals with Done and the mutex
+// fields it locks. Waiting on such a WaitGroup while holding one of those
+// mutexes can deadlock (the goroutine may be blocked on the mutex).
+func (c *VerifCtx) indexGoroutineLocks() {
+	c.wgLocks = map[string]map[string]bool{}
+	fieldKey := func(v ssa.Value) string {
+		fa, ok := v.(*ssa.FieldAddr)
+		if !ok {
+			return ""
+		}
+		pt, ok := fa.X.Type().Underlying().(*types.Pointer)
+		if !ok {
+			return ""
+		}
+		nt, ok := types.Unalias(pt.Elem()).(*types.Named)
+		if !ok {
+			return ""
+		}
+		st, ok := nt.Underlying().(*types.Struct)
+		if !ok {
+			return ""
+		}
+		return nt.Obj().Name() + "." + st.Field(fa.Field).Name()
+	}
+	var scanBody func(fn *ssa.Function, wgs, mus map[string]bool)
+	scanBody = func(fn *ssa.Function, wgs, mus map[string]bool) {
+		for _, b := range fn.Blocks {
+			for _, ins := range b.Instrs {
+				var cc *ssa.CallCommon
+				switch x := ins.(type) {
+				case *ssa.Call:
+					cc = &x.Call
+				case *ssa.Defer:
+					cc = &x.Call
+				}
+				if cc == nil || cc.IsInvoke() {
+					continue
+				}
+				f := cc.StaticCallee()
+				if f == nil || len(cc.Args) == 0 {
+					continue
+				}
+				switch f.String() {
+				case "(*sync.WaitGroup).Done":
+					if k := fieldKey(cc.Args[0]); k != "" {
+						wgs[k] = true
+					}
+				case "(*sync.Mutex).Lock", "(*sync.RWMutex).Lock", "(*sync.RWMutex).RLock":
+					if k := fieldKey(cc.Args[0]); k != "" {
+						mus[k] = true
+					}
+				}
+			}
+		}
+		for _, af := range fn.AnonFuncs {
+			scanBody(af, wgs, mus)
+		}
+	}
+	var visit func(fn *ssa.Function)
+	visit = func(fn *ssa.Function) {
+		for _, b := range fn.Blocks {
+			for _, ins := range b.Instrs {
+				g, ok := ins.(*ssa.Go)
+				if !ok {
+					continue
+				}
+				mc, ok := g.Call.Value.(*ssa.MakeClosure)
+				if !ok {
+					continue
+				}
+				wgs, mus := map[string]bool{}, map[string]bool{}
+				scanBody(mc.Fn.(*ssa.Function), wgs, mus)
+				for w := range wgs {
+					if c.wgLocks[w] == nil {
+						c.wgLocks[w] = map[string]bool{}
+					}
+					for m := range mus {
+						c.wgLocks[w][m] = true
+					}
+				}
+			}
+		}
+		for _, af := range fn.AnonFuncs {
+			visit(af)
+		}
+	}
+	for _, sp := range c.rootPkgs {
+		for _, mem := range sp.Members {
+			switch x := mem.(type) {
+			case *ssa.Function:
+				visit(x)
+			case *ssa.Type:
+				for _, t := range []types.Type{x.Type(), types.NewPointer(x.Type())} {
+					ms := c.prog.MethodSets.MethodSet(t)
+					for i := 0; i < ms.Len(); i++ {
+						if f := c.prog.MethodValue(ms.At(i)); f != nil && f.Pkg == sp {
+							visit(f)
+						}
+					}
+				}
+			}
+		}
+	}
 }
